@@ -143,7 +143,7 @@ func (s *serverSocket) onPacket(header *parser.PacketHeader, eventName string, d
 		}
 
 		for _, handler := range s.eventHandlers.getAll(eventName) {
-			s.onEvent(handler, header, decode, sendAck)
+			s.onEvent(handler, header, decode, sendAck, eventName)
 		}
 	case parser.PacketTypeAck, parser.PacketTypeBinaryAck:
 		s.onAck(header, decode)
@@ -166,6 +166,7 @@ func (s *serverSocket) onEvent(
 	header *parser.PacketHeader,
 	decode parser.Decode,
 	sendAck ackSendFunc,
+	eventName string,
 ) (hasAckFunc bool) {
 	values, err := decode(handler.inputArgs...)
 	if err != nil {
@@ -184,7 +185,7 @@ func (s *serverSocket) onEvent(
 		return
 	}
 
-	err = s.callMiddlewares(values)
+	err = s.callMiddlewares(values, eventName)
 	if err != nil {
 		s.onError(err)
 		return
